@@ -23,7 +23,7 @@ VERIF = os.path.dirname(os.path.dirname(os.path.abspath(__file__)))
 REPO = os.environ.get('KINGDON_REPO', '/repo')
 PY = os.environ.get('KINGDON_PYTHON', '/venv/bin/python')
 GUARD = 'KINGDON_VERIF'
-MAX_VIOL_PER_SHARD = 25
+MAX_VIOL_PER_SHARD = 12
 MAX_SAMPLES = 6
 
 
@@ -72,6 +72,7 @@ class Ctx:
         self.only_case = only_case
         self.rng = random.Random(f'{prop}/{seed}/{json.dumps(shard, sort_keys=True)}')
         self.viol_suppressed = 0
+        self._sig_count = {}
 
     # -- bookkeeping ----------------------------------------------------------
     def count(self, name, n=1):
@@ -96,7 +97,11 @@ class Ctx:
 
     def violation(self, kind, case_id, **witness):
         """A refutation of the property (subject to known-finding classification)."""
-        if len(self.violations) >= MAX_VIOL_PER_SHARD:
+        # cap per mechanism-ish signature, so that many occurrences of one (possibly known) mechanism never hide another one
+        sig = (kind, witness.get('exc_type'), witness.get('exc_where'), witness.get('mode'), witness.get('op'),
+               witness.get('what'), witness.get('form'), witness.get('mechanism_hint'))
+        self._sig_count[sig] = self._sig_count.get(sig, 0) + 1
+        if self._sig_count[sig] > MAX_VIOL_PER_SHARD:
             self.viol_suppressed += 1
             return
         w = {'property': self.prop, 'kind': kind, 'case_id': jsonable(case_id), 'shard': self.shard,
